@@ -218,6 +218,32 @@ let verdict case impl =
       else if accept_conn_shard p (hexn want_s) (hexn obs_s) then "ok kind=pool-probe"
       else "viol pool-tie served-by-shard=" ^ obs_s   (* C12_conn_accept_sound / _complete: the acceptor IS the property *)
     end
+  | ["R"; shd_s; pool_s; _rounds], [evs_s; fin_s] ->
+    (* refiller tie: the model's refiller, fed the connection history the mock saw, ends with the
+       observed pool *)
+    if String.length evs_s >= 5 && String.sub evs_s 0 5 = "skip:" then "ok skipped " ^ evs_s
+    else begin
+      let (nr, msb) = match String.split_on_char '.' shd_s with
+        | [a; b] -> (hexn a, hexn b) | _ -> failwith "bad sharder" in
+      let (pool, _nosap) = match String.split_on_char '/' pool_s with
+        | [a; b] -> (a, b) | _ -> failwith "bad pool" in
+      let k = nat_of_hex (String.sub pool 1 (String.length pool - 1)) in
+      let size = if pool.[0] = 'S' then PerShard k else PerHost k in
+      let mk cid sh = { cid = hexn cid; cinfo = (if nr = N0 then None else Some ((hexn sh, nr), msb)) } in
+      let evs = if evs_s = "-" then [] else
+          List.map (fun e ->
+              let body = String.sub e 1 (String.length e - 1) in
+              match e.[0], String.split_on_char '.' body with
+              | 'r', [cid; sh; sap] -> EvReady (mk cid sh, sap = "1")
+              | 'b', [cid; sh] -> EvBroken (mk cid sh)
+              | _ -> failwith "bad event") (String.split_on_char ';' evs_s) in
+      let fin = if fin_s = "_" then [] else List.map hexn (String.split_on_char '+' fin_s) in
+      if refill_ok size evs fin then
+        Printf.sprintf "ok kind=refill events=%d dropped=%d" (List.length evs) (int_of_nat (refill_dropped size evs))
+      else "diff refiller model-pool=" ^
+           string_of_nlist (List.map (fun c -> match c.cinfo with Some ((s, _), _) -> s | None -> N0)
+                              (List.concat (pool_run size evs).rf_conns))
+    end
   | _ -> "error unknown-case"
 
 let () = run_lines verdict
